@@ -282,31 +282,35 @@ theorem wf_removedSingles {s : DS} (hs : WF s) {idx : List Int} {parts : List DS
 
 theorem wf_removeSamples {s : DS} (hs : WF s) (idx : List Int) :
     WF (removeSamples s idx).1 ∧ ∀ r, (removeSamples s idx).2 = .ok r → WF r := by
-  unfold removeSamples
-  split
-  · exact ⟨hs, fun r h => by cases h⟩
-  · split
-    · exact ⟨hs, fun r h => by cases h⟩
-    · next parts hp =>
-      refine ⟨?_, ?_⟩
-      · have hsub : ∀ p ∈ deleteIdx s.samples idx, p ∈ s.samples := by
-          intro p hp'
-          simp only [deleteIdx, List.mem_filterMap] at hp'
-          obtain ⟨j, _, hj⟩ := hp'
-          split at hj
-          · cases hj
-          · exact List.mem_of_getElem? hj
-        refine wf_of_subset (s' := { s with samples := deleteIdx s.samples idx }) hs hsub rfl ?_
-        intro hne
-        apply hs.flat
-        intro h0
-        apply hne
-        have : deleteIdx s.samples idx = [] := by
-          apply List.eq_nil_iff_forall_not_mem.mpr
-          intro p hp'; have := hsub p hp'; rw [h0] at this; simp at this
-        exact this
-      · intro r hr
-        exact wf_listConcatenate (wf_removedSingles hs hp) hr
+  by_cases hany : idx.any (fun i => i < 0 || i > (s.samples.length : Int)) = true
+  · unfold removeSamples
+    rw [if_pos hany]
+    exact ⟨hs, fun r h => by cases h⟩
+  · rw [removeSamples_eq hany]
+    split
+    · exact ⟨hs, fun r h => wf_updateInternal h (wf_of_empty (by simp))⟩
+    · split
+      · exact ⟨hs, fun r h => by cases h⟩
+      · next parts hp =>
+        refine ⟨?_, ?_⟩
+        · have hsub : ∀ p ∈ deleteIdx s.samples (dedupFirst idx), p ∈ s.samples := by
+            intro p hp'
+            simp only [deleteIdx, List.mem_filterMap] at hp'
+            obtain ⟨j, _, hj⟩ := hp'
+            split at hj
+            · cases hj
+            · exact List.mem_of_getElem? hj
+          refine wf_of_subset (s' := { s with samples := deleteIdx s.samples (dedupFirst idx) }) hs hsub rfl ?_
+          intro hne
+          apply hs.flat
+          intro h0
+          apply hne
+          have : deleteIdx s.samples (dedupFirst idx) = [] := by
+            apply List.eq_nil_iff_forall_not_mem.mpr
+            intro p hp'; have := hsub p hp'; rw [h0] at this; simp at this
+          exact this
+        · intro r hr
+          exact wf_listConcatenate (wf_removedSingles hs hp) hr
 
 theorem wf_removeLabels {s : DS} (hs : WF s) (idx : List Nat) : WF (removeLabels s idx).1 := by
   unfold removeLabels
